@@ -15,46 +15,72 @@ REQUIRED = (["%s.geocentric_position" % p for p in PLANETS]
                "Pluto.geometric_heliocentric_position", "Pluto.geocentric_position",
                "Minor.__init__", "Minor.set", "Minor._near_parabolic", "Minor.geocentric_position",
                "Minor.heliocentric_ecliptical_position"])
-THEOREMS = ["C09_final_stage_direction", "C09_elongation_range", "C09_elongation_cos", "C09_corrections_small",
-            "C09_minor_set", "C09_minor_set_parabolic", "C09_minor_gauss"] + ["C09_light_time_%s" % p for p in PLANETS]
+THEOREMS = ["C09_final_stage_direction",
+            "C09_elongation_range",
+            "C09_elongation_cos",
+            "C09_corrections_small",
+            "C09_minor_set",
+            "C09_minor_set_parabolic",
+            "C09_minor_gauss",
+            "C09_body_Mercury",
+            "C09_body_Venus",
+            "C09_body_Mars",
+            "C09_body_Jupiter",
+            "C09_body_Saturn",
+            "C09_body_Uranus",
+            "C09_body_Neptune",
+            "C09_body_direction",
+            "C09_body_corrections",
+            "C09_body_elongation",
+            "C09_minor_geo_elliptic",
+            "C09_minor_geo_near_parabolic",
+            "C09_minor_helio",
+            "C09_minor_elongation",
+            "C09_minor_direction"]
 PROOF_TIMEOUT = {"quick": 2000, "thorough": 3000}
 EXHAUSTIVE = False
 MANIFEST = {
     "category": "proof",
-    "text": "Ideal-instance theorems about the GENERATED bodies of all seven <Planet>.geocentric_position (light-time stage with the heliocentric-position callees and Epoch.__isub__ abstracted: both bodies taken at the caller's epoch, tau = 0.0057755183*distance, epoch - tau requested) and about the GENERATED Minor.set (Gauss constants a,b,c,A,B,C, semi-major axis in both regimes of |e-1| <= tol, mean motion) + spec theorem that these constants rotate (r,u) into equatorial J2000 coordinates; spec-level theorems for the final stage of <Planet>.geocentric_position (lambda/beta are the direction of (x,y,z); elongation = acos(cos b cos(l-lsun)) in [0,180] and is the angle to the Sun; aberration+FK5+nutation <= 0.02 deg for |beta| <= 25 deg); bit-exact correspondence on planet/Pluto/Minor calls; search oracle recomputing every direction from the library's own heliocentric vectors (planets), the re-evaluated Meeus series (Pluto) and an independent two-body propagation (minor bodies).",
-    "technique": "pyrun symbolic evaluation of the regenerated model in the real-number instance + real analysis (atan2/acos lemmas, interval) + bit-exact differential correspondence + oracle search",
+    "text": "Ideal-instance theorems about the GENERATED code with all callees abstracted (blocked + hypotheses), evaluated by a call-by-value symbolic evaluator: the whole body of each of the seven <Planet>.geocentric_position (second heliocentric call at epoch - tau, vector difference, atan2 stage, aberration k = 20.49552 with the e/pi polynomials, FK5, nutation, ecliptical2equatorial with true obliquity, elongation; the Sun provably taken at the shifted epoch = known finding), Minor.geocentric_position in the elliptic and near-parabolic regimes (which branch for which e), Minor.heliocentric_ecliptical_position, Minor.set; the closed forms are tied to spec theorems (direction of the vector, corrections <= 0.02 deg, elongation in [0,180] = angle to the Sun, Cauchy-Schwarz for the minor-body elongation); JDE2000 = 2451545 proved; bit-exact correspondence on planet/Pluto/Minor calls; search oracle recomputing every direction from the library's own heliocentric vectors (planets), the re-evaluated Meeus series (Pluto) and an independent two-body propagation (minor bodies).",
+    "technique": "call-by-value symbolic evaluation (pyrun9) of the regenerated model in the real-number instance with blocked callees + real analysis (atan2/acos lemmas, Cauchy-Schwarz, interval) + bit-exact differential correspondence + oracle search",
     "design_ref": "8/C09",
 }
-EXPLANATION = ("The model of the 16 modules is regenerated from /repo. The light-time stage of each of the seven generated geocentric_position bodies is evaluated symbolically with its callees abstracted (C09_light_time_<Planet>). Minor.set of the regenerated model is evaluated symbolically "
-               "in the real-number instance for all q > 0, e < 1 - tol and |e-1| <= tol, any orientation (theorems C09_minor_set*), and "
-               "the stored Gauss constants are proved to be the rotation of the orbital-plane vector into the J2000 equator (C09_minor_gauss). "
-               "For the planets the final stage (direction, elongation, size of aberration+FK5+nutation) is proved for hand-written closed forms "
-               "(spec level); the tie of the 7 generated geocentric_position bodies, Pluto and Minor.geocentric_position to the code is the "
-               "bit-exact correspondence plus the search oracle, which recomputes every returned direction from the library's own heliocentric "
-               "vectors. The numerical agreement (0.02 / 1e-4 degree) is searched, not proved.")
+EXPLANATION = ("The model of the 16 modules is regenerated from /repo. Each of the seven generated geocentric_position bodies is evaluated "
+               "symbolically, whole, in the real-number instance with its callees abstracted (C09_body_<Planet>): the result is "
+               "ecliptical2equatorial(LAMG, BETG, true_obliquity) and ELONG, closed forms (C09_body.v) that are proved to be the direction "
+               "of planet(epoch - tau) - Earth(epoch) plus aberration/FK5/nutation terms bounded by 0.02 degree, and the elongation "
+               "acos(cos B cos(L - Lsun)) in [0,180]. Minor.set, Minor.geocentric_position (elliptic and near-parabolic regimes) and "
+               "Minor.heliocentric_ecliptical_position are evaluated the same way. The parabolic loop, Pluto, and the numerical agreement "
+               "(0.02 / 1e-4 degree) with vectors recomputed from the library are searched, not proved.")
 CLAUSES = {
-    "planets: lambda, beta are the direction of (x,y,z) (atan2 quadrants)": "proved [spec: final_stage_direction]",
-    "planets: elongation = acos(cos beta cos(lambda - lambda_sun)) lies in [0,180] and is the angle between the direction and the Sun (latitude 0)": "proved [spec]",
-    "planets: aberration + FK5 + nutation <= 0.02 deg for |beta|, |B| <= 25 deg, |T| <= 40 centuries, |dpsi| <= 19.03 arcsec": "proved [spec: closed forms of the generated body, interval]",
-    "planets (all 7 generated bodies): light-time stage - planet and Earth taken at the caller's epoch with tofk5=False, tau = 0.0057755183*|planet - Earth|, epoch - tau requested from Epoch.__isub__ on the caller's Epoch value": "proved [ideal, generated code, callees abstracted: C09_light_time_<Planet>]",
-    "planets: the rest of the generated body (second pass, atan2 stage, aberration/FK5/nutation, elongation) computes the spec closed forms": "unproved (searched): symbolic evaluation of the remaining ~45 statements with 14 abstracted callees ran out of memory/time (20 min, OOM) in this environment; tied by bit-exact correspondence (9 planet calls per quick run), the direction search and the auxiliary 0.002 deg apparent-place check",
-    "planets: Sun/nutation/obliquity evaluated at epoch - tau (not the epoch of observation)": "refuted for the property text by search: known finding elongation-sun-at-light-time-epoch (up to 0.17 deg for Neptune); the formula itself is checked against the Sun at epoch - tau under key elongation-formula",
-    "caller's Epoch not shifted": "unproved (searched): jde before/after every call; in the model `epoch -= tau` rebinds a new value by construction",
+    "planets (all 7 generated bodies, whole function): second heliocentric call at epoch - tau (tau = 0.0057755183*|planet - Earth| of the first pass, both at the caller's epoch, tofk5=False), (x,y,z) = planet(epoch - tau) - Earth(epoch), lambda = atan2(y,x), beta = atan2(z, sqrt(x^2+y^2)), aberration with k = 20.49552 and the e, pi polynomials, FK5 terms, nutation, ecliptical2equatorial with the true obliquity, elongation acos(cos B cos(L - Lsun))": "proved [ideal, generated code, callees abstracted: C09_body_<Planet>; side conditions |T| <= 40 cy, |beta| <= 25 deg, |B| <= 25 deg]",
+    "planets: lambda, beta of the generated body are the direction of (x,y,z) (atan2 quadrants)": "proved [generated closed forms -> spec: C09_body_direction]",
+    "planets: what the generated body adds (aberration + FK5 + nutation) <= 0.02 deg for |beta|, |B| <= 25 deg, |T| <= 40 cy, |dpsi| <= 19.03 arcsec": "proved [generated closed forms -> spec: C09_body_corrections]",
+    "planets: returned elongation lies in [0,180] and is acos(cos B cos(L - Lsun))": "proved [generated closed forms -> spec: C09_body_elongation]",
+    "planets: Sun/nutation/obliquity evaluated at epoch - tau (not the epoch of observation)": "refuted for the property text: C09_body_<Planet> shows the generated body passes the shifted epoch j1 to Sun.apparent_geocentric_position; known finding elongation-sun-at-light-time-epoch (search: up to 0.17 deg for Neptune); the formula itself is checked against the Sun at epoch - tau under key elongation-formula",
+    "caller's Epoch not shifted": "proved in the model sense [C09_body_<Planet>: the Earth is taken at the caller's epoch value j after the shift, the shifted value is a different object returned by Epoch.__isub__] + searched (jde before/after every call)",
+    "planets: agreement to 0.02 deg with the direction recomputed from the library's heliocentric vectors, epochs -2000..4000": "unproved (searched): follows from C09_body_direction + C09_body_corrections only under their side conditions and bounds on the nutation series; the search recomputes it on the implementation",
     "auxiliary (tighter than the property text): returned place within 0.002 deg of the apparent place rebuilt with independently written aberration/FK5 formulas and the library's nutation": "unproved (searched), key planet-apparent-place",
-    "planets: agreement to 0.02 deg with the direction recomputed from the library's heliocentric vectors, epochs -2000..4000": "unproved (searched): needs bounds on 1000-term VSOP sums",
     "Mercury <= 28.5 deg, Venus <= 48 deg": "unproved (searched)",
     "Pluto 1885-2099 direction to 1e-4 deg; series of Meeus ch.37 re-evaluated": "unproved (searched) + bit-exact correspondence",
     "Minor.set: Gauss constants a,b,c,A,B,C closed forms; a = |q/(1-e)| (e < 1 - tol) or q (|e-1| <= tol); n = 0.9856076686/(a sqrt a)": "proved [ideal, generated code, all q > 0, any orientation]",
     "Minor: the Gauss constants rotate (r, u) into equatorial J2000 x,y,z (Rx(eps) Rz(Omega) Rx(i))": "proved [spec: gauss_xyz]",
-    "Minor: regime switch e < 0.98 elliptic / |e-1| < tol parabolic / else near-parabolic; continuity across the switch points": "unproved (searched): same body evaluated at e = 0.98 -1e-9/+0/+1e-9 and 1 -1e-9/-2e-10/-1e-10/1.0 against one independent two-body propagation (1e-4 deg), _near_parabolic (v, r) to 1e-6",
+    "Minor.geocentric_position, regime e < 0.98: kepler_equation path, r = a(1 - e cos E), two light-time passes, ra/dec = direction of body(t - tau) + Sun(t), elongation": "proved [ideal, generated code, kepler_equation and Sun.rectangular_coordinates_j2000 abstracted: C09_minor_geo_elliptic, C09_minor_direction, C09_minor_elongation]",
+    "Minor.geocentric_position, regime 0.98 <= e, |e-1| >= tol: _near_parabolic path, same two passes and direction stage": "proved [ideal, generated code, _near_parabolic abstracted: C09_minor_geo_near_parabolic]",
+    "Minor.geocentric_position, regime |e-1| < tol (parabolic): Barker iteration": "unproved (searched): data-dependent while loop; searched against the two-body propagation (key minor-parabolic-no-light-time / minor-direction)",
+    "Minor.heliocentric_ecliptical_position closed form": "proved [ideal, generated code, kepler_equation abstracted: C09_minor_helio]",
+    "Minor: elongation argument within [-1,1] (no math domain error) whenever |g||s| <> 0": "proved [Cauchy-Schwarz, C09_minor_elongation]",
+    "Minor: continuity across the switch points e = 0.98, e = 1": "unproved (searched): same body at e = 0.98 -1e-9/+0/+1e-9 and 1 -1e-9/-2e-10/-1e-10/1.0 against one independent two-body propagation (1e-4 deg), _near_parabolic (v, r) to 1e-6",
     "Minor: direction to 1e-4 deg of an independent two-body propagation, q 0.1-30, e 0..1, +-50 yr; elongation to 0.02 deg": "unproved (searched)",
     "Minor: _near_parabolic converges": "refuted by search for 0.98 <= e < ~0.9975 far from perihelion: known finding minor-near-parabolic-no-convergence",
 }
 
 
 def proof_files(tier):
-    return (["C09_spec.v", "C09_minor.v", "C09_A_defs.v", "C09_A_tac.v", "C09_geo.v"]
-            + ["C09_lt_%s.v" % p for p in PLANETS] + ["C09.v"])
+    return (["C09_spec.v", "C09_minor.v", "C09_A_defs.v", "C09_A_tac.v", "C09_A_reduce.v", "C09_A_construct.v",
+             "C09_A_ops.v", "C09_angle.v", "C09_geo.v", "C09_tac.v", "C09_body.v", "C09_J_tac.v", "C09_J_jde.v"]
+            + ["C09_pl_%s.v" % p for p in PLANETS]
+            + ["C09_planets.v", "C09_mbody.v", "C09_mgeo.v", "C09.v"])
 
 
 # ----------------------------------------------------------------------------------------------
